@@ -121,7 +121,7 @@ def check_wrapper(chk):
             is_fetch = "'fetchFn'" in origins
             import re as _re
             # a callback the host configured through an options key named ...Fn (logFn, urlFn, or one added later): trusted host configuration
-            is_option_cb = bool(_re.search(r"options(?:\.get\(|\[)'[A-Za-z]+Fn'", origins)) and not is_fetch
+            is_option_cb = bool(_re.search(r"(?:get\w*\(|\[)'[A-Za-z]+Fn'", origins)) and not is_fetch
             # calling convention of function values: f(<argument list>, options)
             is_fv = len(call.args) == 2 and not call.keywords and isinstance(call.args[1], ast.Name) and call.args[1].id in params and call.args[1].id == 'options' \
                 and not is_fetch and not is_option_cb
